@@ -178,15 +178,77 @@ def instances(r):
     return out
 
 
+def post_dhd(ctx):
+    """directional_hamming_distance(ref, est) = sum over reference intervals of
+    (duration - longest stretch covered by one estimated interval) / reference
+    span, in exact rationals. Judged when the estimated side is contiguous (the
+    reference side may have gaps); other shapes are counted, not judged."""
+    def post(call):
+        if call.exc is not None:
+            return
+        a = call.case()["args"]
+        try:
+            ref = np.asarray(a[0], dtype=float)
+            est = np.asarray(a[1], dtype=float)
+        except Exception:
+            return
+        ok = ref.ndim == 2 and est.ndim == 2 and len(ref) and len(est) and \
+            np.all(np.isfinite(ref)) and np.all(np.isfinite(est)) and \
+            np.all(ref[:, 1] > ref[:, 0]) and np.all(est[:, 1] > est[:, 0]) and \
+            np.all(ref[1:, 0] >= ref[:-1, 1]) and np.all(est[1:, 0] == est[:-1, 1])
+        if not ok:
+            ctx.count("unclassified.directional_hamming_distance")
+            return
+        ctx.ev()
+        ctx.count("contract.chord.directional_hamming_distance")
+        tot = F(0)
+        for s, e in ref:
+            s, e = F(float(s)), F(float(e))
+            best = F(0)
+            for u, v in est:
+                lo, hi = max(s, F(float(u))), min(e, F(float(v)))
+                if hi - lo > best:
+                    best = hi - lo
+            # a part of the reference interval outside the estimate's span is one
+            # more stretch (the library cuts at estimated boundaries only)
+            for lo, hi in ((s, min(e, F(float(est[0, 0])))), (max(s, F(float(est[-1, 1]))), e)):
+                if hi - lo > best:
+                    best = hi - lo
+            tot += (e - s) - best
+        want = float(tot / (F(float(ref[-1, 1])) - F(float(ref[0, 0]))))
+        got = float(call.result)
+        if abs(got - want) > TOL:
+            ctx.violation("C12/chord.directional_hamming_distance/formula", "formula",
+                          "chord.directional_hamming_distance",
+                          "directional_hamming_distance = %r, definition gives %r" % (
+                              got, want), call.case(),
+                          witness={"reference": ref, "estimated": est, "result": got,
+                                   "definition": want})
+        if np.any(ref[1:, 0] > ref[:-1, 1]):
+            ctx.count("dhd.reference_with_gaps")
+    return post
+
+
 def run_shard(spec, ctx):
     mods = env.load_repo()
     shim.install(mods["chord"], "weighted_accuracy", post=post_weighted_accuracy(ctx))
+    shim.install(mods["chord"], "directional_hamming_distance", post=post_dhd(ctx))
     shim.install(mods["chord"], "evaluate", post=lambda call: None, snapshot=False)
     r = ctx.rng("refine")
     rel = Relations(ctx, mods, "C12")
     for _ in range(spec["n"]):
         for inst in instances(r):
             rel.run(inst)
+        # segmentation distances with an un-annotated gap on the reference side
+        ga = gen.gapped_intervals(r)
+        ce, _ = gen.segmentation(r, start=int(ga[0, 0] * 64),
+                                 total=max(2, int(round((ga[-1, 1] - ga[0, 0]) * 64))))
+        try:
+            # overseg(a, b) = 1 - dhd(a, b); underseg(a, b) = 1 - dhd(b, a)
+            mods["chord"].overseg(ga, ce)
+            mods["chord"].underseg(ce, ga)
+        except Exception:  # noqa: BLE001
+            ctx.count("driver.raised")
     rel.check(CHECKERS)
     n, problems = shim.fidelity_report()
     if problems:
@@ -196,6 +258,7 @@ def run_shard(spec, ctx):
 def replay(case, ctx):
     mods = env.load_repo()
     shim.install(mods["chord"], "weighted_accuracy", post=post_weighted_accuracy(ctx))
+    shim.install(mods["chord"], "directional_hamming_distance", post=post_dhd(ctx))
     if case.get("kind") == "call":
         from ..replay import call_again
         call_again(case, mods)
@@ -211,3 +274,5 @@ def finalize(m, tier):
         m["inconclusive"].append("weighted_accuracy contract never evaluated")
     if c.get("origin.internal", 0) == 0:
         m["inconclusive"].append("no internal weighted_accuracy call observed")
+    if c.get("dhd.reference_with_gaps", 0) == 0:
+        m["inconclusive"].append("directional_hamming_distance never seen with a gap")
